@@ -345,7 +345,8 @@ ITEMS = [
          impl_header="impl<'a> YamlSerializer<'a>", props=['C12', 'C01'],
          pre_rewrites=[(r"fn serialize_tuple_variant\(\s*self,\s*_name: &'static str,\s*_variant_index: u32,\s*variant: &'static str,\s*_len: usize,\s*\) -> Result<Self::SerializeTupleVariant>",
                         "fn serialize_tuple_variant_prologue(&mut self, variant: &'static str, Ghost(pcol): Ghost<int>) -> Result<usize, SerError>", 1, 'R9')],
-         rewrites=[(r'Ok\(TupleVariantSer \{\s*ser: self,\s*depth: ([^,]+),\s*\}\)', r'Ok(\1)', None, 'R9')],
+         rewrites=[(r'Ok\(TupleVariantSer \{\s*ser: self,\s*depth: ([^,]+),\s*(?:flow: \w+,\s*first: \w+,\s*)?\}\)', r'Ok(\1)', None, 'R9'),
+                   (r'Ok\(TupleVariantSer \{\s*ser: self,\s*depth,\s*(?:flow: \w+,\s*first: \w+,\s*)?\}\)', r'Ok(depth)', None, 'R9')],
          requires=[('assumed:valid_options', 'old(self).indent_step >= 1'),
                    ('assumed:layout_fits_the_machine', '''old(self).depth + 3 <= usize::MAX && (old(self).current_map_depth is Some ==> old(self).current_map_depth->Some_0 + 3 <= usize::MAX)
                         && (old(self).after_dash_depth is Some ==> old(self).after_dash_depth->Some_0 + 3 <= usize::MAX)
@@ -365,6 +366,10 @@ ITEMS = [
                       assert(st * (dd + 1) == st * dd + st && st * (dd + 2) == st * dd + 2 * st && st * (dd + 3) == st * dd + 3 * st) by(nonlinear_arith);
                       assert(st * kd >= 0 && st * dp >= 0 && st * dd >= 0) by(nonlinear_arith) requires st >= 1, kd >= 0, dp >= 0, dd >= 0;'''),
                  dict(at='start', ghost=True, text='let ghost mut tm: Seq<char> = Seq::empty(); let ghost t0 = self.out.text();'),
+                 dict(after_re=r'self\.out\.write_str\("\{"\)\?;', optional=True, ghost=True,
+                      text='let ghost kb = self.out.text().len() - 1; let ghost tb = self.out.text(); proof { reveal_strlit("{"); assert(tb[kb] == \'{\' && kb >= t0.len()); }'),
+                 dict(before_re=r'self\.out\.write_str\(": \["\)\?;', optional=True, ghost=True, text='let ghost tq = self.out.text(); proof { assert(tq.subrange(0, tb.len() as int) =~= tb); assert(tq[kb] == tb[kb]); }'),
+                 dict(after_re=r'self\.out\.write_str\(": \["\)\?;', optional=True, text='reveal_strlit(": ["); assert(self.out.text()[kb] == tq[kb]);'),
                  dict(before_re=r'self\.write_plain_or_quoted\(variant\)\?;', nth=1, optional=True, text='tm = self.out.text();'),
                  dict(after_re=r'self\.write_plain_or_quoted\(variant\)\?;', nth=1, optional=True, text='assert(self.out.text().subrange(0, tm.len() as int) =~= tm);'),
                  dict(after_re=r'self\.out\.write_str\(":\\n"\)\?;', nth=1, optional=True,
@@ -372,18 +377,23 @@ ITEMS = [
                               if tm.len() > t0.len() { assert(self.out.text().subrange(0, t0.len() as int) =~= tm.subrange(0, t0.len() as int));
                                   assert(self.out.text().subrange(t0.len() as int + 1, tm.len() as int) =~= tm.subrange(t0.len() as int + 1, tm.len() as int)); }''')],
          ensures=[('C12:a_variant_name_in_value_position_starts_on_its_own_line_indented_deeper_than_the_key_it_belongs_to',
-                   '''r is Ok && old(self).pending_space_after_colon ==> ({
+                   '''r is Ok && old(self).pending_space_after_colon && old(self).in_flow == 0 ==> ({
                         let t0 = old(self).out.text(); let t1 = final(self).out.text();
                         let c = old(self).indent_step * ((match old(self).current_map_depth { Some(d) => d as int, None => old(self).depth as int }) + 1);
                         c > pcol && t1.len() >= t0.len() + 1 + c && t1.subrange(0, t0.len() as int) =~= t0 && t1[t0.len() as int] == '\\n'
                         && t1.subrange(t0.len() as int + 1, t0.len() as int + 1 + c) =~= fold_spaces(c)
                         && old(self).indent_step * r->Ok_0 >= c })'''),
                   ('C12:the_items_of_a_variant_that_follows_a_dash_are_not_left_of_its_name',
-                   '''r is Ok && !old(self).pending_space_after_colon && !old(self).at_line_start && old(self).after_dash_depth is Some
+                   '''r is Ok && old(self).in_flow == 0 && !old(self).pending_space_after_colon && !old(self).at_line_start && old(self).after_dash_depth is Some
                         ==> old(self).indent_step * r->Ok_0 >= pcol + 2'''),
                   ('C12:the_items_of_a_variant_at_the_start_of_a_line_are_not_left_of_its_name',
-                   '''r is Ok && !old(self).pending_space_after_colon && old(self).at_line_start && old(self).after_dash_depth is None
-                        ==> old(self).indent_step * r->Ok_0 >= old(self).indent_step * old(self).depth''')],
+                   '''r is Ok && old(self).in_flow == 0 && !old(self).pending_space_after_colon && old(self).at_line_start && old(self).after_dash_depth is None
+                        ==> old(self).indent_step * r->Ok_0 >= old(self).indent_step * old(self).depth'''),
+                  # F33: a flow collection cannot hold a block collection; inside one, a variant with a payload is a flow mapping `{Name: [ ...`
+                  ('C20:inside_a_flow_collection_a_tuple_variant_is_opened_as_a_flow_mapping_holding_a_flow_sequence',
+                   '''r is Ok && old(self).in_flow > 0 ==> ({ let t1 = final(self).out.text(); let n = t1.len() as int;
+                        n >= 3 && t1[n - 3] == ':' && t1[n - 2] == ' ' && t1[n - 1] == '['
+                        && exists|k: int| old(self).out.text().len() <= k < n - 3 && t1[k] == '{' })''', ['C20'])],
          canaries=['C12:a_variant_name_in_value_position_starts_on_its_own_line_indented_deeper_than_the_key_it_belongs_to']),
     # ---- empty block collections (C20: no option may turn data into other data) ----
     dict(src=SR, path='impl SerializeSeq for SeqSer/fn end', id='SeqSer::end#empty', props=['C20', 'C01'],
